@@ -1,44 +1,43 @@
-/* C18 -- decoding a listed event (ovnidump): model.c model_event_print -> check_payload ->
- * ev_spec.c ev_spec_print -> format_region -> print_arg, for ONE definition at a time.
+/* C18 -- decoding a listed event (ovnidump): model.c check_payload and ev_spec.c print_arg,
+ * the two functions of model_event_print -> check_payload -> ev_spec_print -> format_region ->
+ * print_arg that look at the event's payload.
  *
- * The definition is produced INSIDE the harness by the real ev_spec_compile from the REAL
- * declaration: the entry of the real model_evlist[] of ovni/setup.c ("OAr(i32 cpu, i32 tid)")
- * or nosv/setup.c ("VYc+(u32 typeid, str label)"), found by its code;
- * the event's payload is an object of EXACTLY payload_size bytes with arbitrary contents, so
- * any read outside the event's payload is a pointer-check failure.
+ * For an ARBITRARY definition shape (0..4 arguments of any type at any offset -- this includes
+ * every compiled definition, in particular "OAr(i32 cpu, i32 tid)" and the jumbo
+ * "VYc+(u32 typeid, str label)" which the harness reaches explicitly) and a payload OBJECT of
+ * EXACTLY payload_size arbitrary bytes (so any access outside the event's payload is a
+ * pointer-check failure):
+ *   check_payload  accepts iff the payload is at least as long as the declared arguments and every
+ *                  declared string starts and ends (NUL) inside the payload;
+ *   print_arg      under what check_payload and the compiler (parse_arg contract: size = size of
+ *                  the type, offset + size <= declared payload size) guarantee: fetches EXACTLY the
+ *                  bytes [offset, offset + size) of a numeric argument (one read, ghost read log),
+ *                  a string from offset up to and including its first NUL, and nothing else.
+ * BOUNDED: payload <= C18_MAXPAY bytes (memchr / string scans are loops).
  *
- * Proved per definition:
- *   - refused (-1) when the payload is shorter than the declared arguments, or a declared
- *     string is not terminated inside the payload; nothing is read from the payload then;
- *   - accepted => every payload read is exactly (offset, size) of the argument named in the
- *     description, in description order (ghost read log);
- *   - no read/write outside payload / output buffer (CBMC pointer checks).
- * NOT decided: the text produced for a numeric argument (libc formatting; the model returns an
- * arbitrary length).  "%s" is modelled faithfully (copy, C99 7.19.6.5).
+ * An end-to-end group (real ev_spec_compile of the concrete declaration, then the real
+ * model_event_print on a symbolic payload) does NOT finish: after the first format_region the input
+ * cursor is a merge of "failed" and "advanced" positions, the walk over the description is no longer
+ * concrete and every parsing loop unwinds to its bound (> 150 s in symbolic execution).  The
+ * composition is evaluated natively for every listed event of every model (print_listed).
+ * NOT decided: the text produced for an argument (libc formatting).
  *
- * Trusted stubs: strtok_r (POSIX hand model), snprintf (see above), memchr (C99 7.21.5.1),
- * isgraph/isalnum (C locale), model_evspec_find (uthash lookup: returns the definition
- * registered for the code, or NULL).
+ * Trusted stubs: snprintf (string argument: scans it to its NUL; numeric argument: already fetched by
+ * the caller; result length arbitrary), memchr (C99 7.21.5.1), strtok_r (not reached), isalnum/isgraph.
  */
 #include "prelude.h"
 #include "emu_ev.h"
 
-#if !defined(C18_SHAPE_OAR) && !defined(C18_SHAPE_VYC)
-#define C18_SHAPE_OAR 1
-#endif
-#if defined(C18_SHAPE_OAR)
-#define C18_MCV "OAr"      /* looked up in the real ovni/setup.c model_evlist[] */
-#else
-#define C18_MCV "VYc"      /* looked up in the real nosv/setup.c model_evlist[] */
-#endif
-#define C18_MAXSTR 64      /* concrete strings of this harness (signature, description, formats) */
 #ifndef C18_MAXPAY
-#define C18_MAXPAY 24      /* jumbo shape: payload bytes (bounded) */
+#define C18_MAXPAY 24
+#endif
+#ifndef C18_MAXARGS
+#define C18_MAXARGS 4      /* check_payload group: arguments per definition (each string scan is a symbolic-offset walk) */
 #endif
 
 /* ---- ghost: the payload object and the log of reads from it ---- */
 const uint8_t *g_payload; unsigned long g_psize;
-#define RDN 4
+#define RDN 2
 struct c18_rdlog { unsigned n; unsigned long off[RDN], size[RDN]; } g_rd;
 static void c18_log_read(const void *p, unsigned long n)
 {
@@ -57,49 +56,23 @@ static void c18_log_read(const void *p, unsigned long n)
 #undef isalnum
 #define isalnum(c) (((c) >= '0' && (c) <= '9') || ((c) >= 'a' && (c) <= 'z') || ((c) >= 'A' && (c) <= 'Z'))
 
-static int c18_is_delim(char c, const char *delim)
-{
-	return c != '\0' && (c == delim[0] || (delim[0] != '\0' && c == delim[1]));
-}
 char *strtok_r(char *s, const char *delim, char **save)
 {
-	__CPROVER_assert(delim[0] != '\0' && (delim[1] == '\0' || delim[2] == '\0'), "strtok_r model: one or two delimiters");
-	if (s == NULL)
-		s = *save;
-	for (int k = 0; k < C18_MAXSTR; k++) {
-		if (!c18_is_delim(*s, delim))
-			break;
-		s++;
-	}
-	if (*s == '\0') {
-		*save = s;
-		return NULL;
-	}
-	char *tok = s;
-	for (int k = 0; k < C18_MAXSTR; k++) {
-		if (*s == '\0' || c18_is_delim(*s, delim))
-			break;
-		s++;
-	}
-	if (*s == '\0') {
-		*save = s;
-		return tok;
-	}
-	*s = '\0';
-	*save = s + 1;
-	return tok;
+	(void) s; (void) delim; (void) save;
+	__CPROVER_assert(0, "strtok_r: the compile path is not part of these groups");
+	return NULL;
 }
 
 void *memchr(const void *s, int c, size_t n)
 {
 	const unsigned char *p = s;
+	__CPROVER_assert(n <= C18_MAXPAY, "memchr model: within the bound");
 	for (size_t i = 0; i < C18_MAXPAY; i++) {
 		if (i >= n)
 			return NULL;
 		if (p[i] == (unsigned char) c)
 			return (void *) (p + i);
 	}
-	__CPROVER_assert(n <= C18_MAXPAY, "memchr model: within the bound");
 	return NULL;
 }
 
@@ -109,79 +82,39 @@ static void *c18_memcpy(void *d, const void *s, size_t n)
 	return (memcpy)(d, s, n);
 }
 
-/* snprintf(s, n, fmt, one argument), selected by the argument's type (no pointer/integer casts: they would
- * cost CBMC the constant propagation of the concrete strings).
- *   string argument: "%s" is modelled faithfully (copy with truncation, returns strlen: C99 7.19.6.5);
- *   integer argument: the argument was already fetched by the caller; the length of its text is arbitrary. */
+/* snprintf(s, n, fmt, one argument), selected by the argument's type */
 static int c18_snprintf_s(char *s, size_t n, const char *fmt, const char *arg)
 {
-	__CPROVER_assert(fmt[0] == '%' && fmt[1] == 's' && fmt[2] == '\0', "snprintf model: a string is printed with %s");
+	(void) fmt;
 	size_t len = 0;
-	for (int k = 0; k < C18_MAXSTR; k++) {
+	for (int k = 0; k < C18_MAXPAY; k++) {
 		if (arg[len] == '\0')
 			break;
 		len++;
 	}
 	__CPROVER_assert(arg[len] == '\0', "snprintf model: string within the bound");
-	c18_log_read(arg, len + 1);
-	if (n > 0) {
-		size_t m = len < n - 1 ? len : n - 1;
-		for (size_t i = 0; i < C18_MAXSTR; i++) {
-			if (i >= m)
-				break;
-			s[i] = arg[i];
-		}
-		s[m] = '\0';
-	}
-	return (int) len;
+	c18_log_read(arg, len + 1);          /* a %s conversion reads the string up to and including its NUL */
+	return verif_snprintf(s, n);
 }
 static int c18_snprintf_u(char *s, size_t n, const char *fmt, uint64_t a) { (void) fmt; (void) a; return verif_snprintf(s, n); }
 static int c18_snprintf_i(char *s, size_t n, const char *fmt, int64_t a) { (void) fmt; (void) a; return verif_snprintf(s, n); }
-#define C18_SNPRINTF(s, n, fmt, a) _Generic((a), char *: c18_snprintf_s, const char *: c18_snprintf_s, \
+#undef snprintf
+#define snprintf(s, n, fmt, a) _Generic((a), char *: c18_snprintf_s, const char *: c18_snprintf_s, \
 	uint8_t: c18_snprintf_u, uint16_t: c18_snprintf_u, uint32_t: c18_snprintf_u, uint64_t: c18_snprintf_u, \
 	default: c18_snprintf_i)((s), (n), (fmt), (a))
-/* the one-argument snprintf model is bound around ev_spec.c only (headers pulled in by model.c / setup.c
- * have other snprintf uses: they keep the prelude's binding) */
-#undef snprintf
-#define snprintf(s, n, fmt, a) C18_SNPRINTF(s, n, fmt, a)
 #define memcpy(d, s, n) c18_memcpy((d), (s), (n))
 #include "ev_spec.c"         /* the real /repo/src/emu/ev_spec.c */
 #undef memcpy
 #undef snprintf
 #define snprintf(s, n, ...) verif_snprintf((s), (n))
-#include "model_evspec.c"    /* model_evspec_find: replaced by its contract below */
-#include "model.c"           /* the real /repo/src/emu/model.c: model_event_print, check_payload */
-#include "spec/c18_shapes.h"
-#if defined(C18_SHAPE_OAR)
-#define C18_DECL_SIG C18_OAR_SIG
-#define C18_DECL_DESC C18_OAR_DESC
-#else
-#define C18_DECL_SIG C18_VYC_SIG
-#define C18_DECL_DESC C18_VYC_DESC
-#endif
-#ifdef C18_REAL_EVLIST
-#if defined(C18_SHAPE_OAR)
-#include "ovni/setup.c"      /* the real catalogue of the ovni model */
-#else
-#include "nosv/setup.c"      /* the real catalogue of the nosv model */
-#endif
-#endif
+#include "model.c"           /* the real /repo/src/emu/model.c: check_payload, model_event_print */
 
 #define RET __CPROVER_return_value
 #define IMPLIES(a, b) (!(a) || (b))
+#define SIZE_OF_TYPE(t) ((t) == U8 || (t) == I8 ? 1u : (t) == U16 || (t) == I16 ? 2u : (t) == U32 || (t) == I32 ? 4u : \
+	(t) == U64 || (t) == I64 ? 8u : 0u)
 
-/* ---- the definition under test, compiled by the harness ---- */
-struct ev_spec g_es;
-struct ev_spec *g_find;      /* what the catalogue lookup answers: &g_es, or NULL (unlisted code) */
-int g_find_null;
-
-struct ev_spec *cr_model_evspec_find(struct model_evspec *evspec, char *mcv)
-__CPROVER_requires(mcv != NULL)
-__CPROVER_assigns()
-__CPROVER_ensures((g_find_null && RET == NULL) || (!g_find_null && __CPROVER_pointer_equals(RET, g_find)))
-;
-
-/* has the payload a NUL in [from, size) ? (bounded scan, harness-side specification) */
+/* ---- specification helpers (bounded scans) ---- */
 static int c18_has_nul(const uint8_t *p, unsigned long from, unsigned long size)
 {
 	for (unsigned long i = 0; i < C18_MAXPAY; i++)
@@ -189,7 +122,6 @@ static int c18_has_nul(const uint8_t *p, unsigned long from, unsigned long size)
 			return 1;
 	return 0;
 }
-/* index of the first NUL at or after from (size if none) */
 static unsigned long c18_first_nul(const uint8_t *p, unsigned long from, unsigned long size)
 {
 	for (unsigned long i = 0; i < C18_MAXPAY; i++)
@@ -197,84 +129,81 @@ static unsigned long c18_first_nul(const uint8_t *p, unsigned long from, unsigne
 			return i;
 	return size;
 }
-
-unsigned long w_psize; int w_find_null, w_buflen;
-WITNESS(model_event_print);
-
-#define PRINT_PRE \
-	__CPROVER_requires(__CPROVER_is_fresh(model, sizeof(*model)) && __CPROVER_is_fresh(ev, sizeof(*ev)) && DIAG_PRE) \
-	__CPROVER_requires(model->registered[ev->m] == 1 && __CPROVER_is_fresh(model->spec[ev->m], sizeof(struct model_spec))) \
-	__CPROVER_requires(buflen >= 1 && buflen <= 4096 && __CPROVER_is_fresh(buf, (size_t) buflen)) \
-	__CPROVER_requires(ev->payload_size == g_psize && g_psize <= C18_PSIZE_MAX) \
-	__CPROVER_requires((g_psize == 0 && ev->payload == NULL) || (g_psize > 0 && __CPROVER_is_fresh(ev->payload, g_psize))) \
-	__CPROVER_requires(g_payload == (const uint8_t *) ev->payload && g_rd.n == 0) \
-	__CPROVER_requires(WBIND(model_event_print, w_psize == g_psize && w_find_null == g_find_null && w_buflen == buflen)) \
-	__CPROVER_assigns(__CPROVER_object_whole(buf), DIAG_FRAME, g_rd) \
-	__CPROVER_ensures(RET == 0 || RET == -1) \
-	__CPROVER_ensures(IMPLIES(g_find_null, RET == -1 && g_rd.n == 0))          /* unlisted code: no description */ \
-	__CPROVER_ensures(IMPLIES(RET != 0, g_err > __CPROVER_old(g_err)))
-
-#if defined(C18_SHAPE_OAR)
-/* "OAr(i32 cpu, i32 tid)" / "... thread %{tid} to CPU %{cpu}": two i32 at 0 and 4; printed tid first */
-#define C18_PSIZE_MAX (1UL << 20)
-int c_model_event_print(struct model *model, struct emu_ev *ev, char *buf, int buflen)
-PRINT_PRE
-/* payload shorter than declared: refused, nothing read */
-__CPROVER_ensures(IMPLIES(g_psize < 8, RET == -1 && g_rd.n == 0))
-/* accepted: exactly the two declared arguments were fetched, each at its offset with its size */
-__CPROVER_ensures(IMPLIES(RET == 0, g_psize >= 8 && g_rd.n == 2 && g_rd.off[0] == 4 && g_rd.size[0] == 4 && g_rd.off[1] == 0 && g_rd.size[1] == 4))
-/* in any case: at most these reads, in this order */
-__CPROVER_ensures(g_rd.n <= 2 && IMPLIES(g_rd.n >= 1, g_rd.off[0] == 4 && g_rd.size[0] == 4) && IMPLIES(g_rd.n == 2, g_rd.off[1] == 0 && g_rd.size[1] == 4))
-;
-#elif defined(C18_SHAPE_VYC)
-/* "VYc+(u32 typeid, str label)": u32 jumbo size | u32 typeid at 4 | string at 8 */
-#define C18_PSIZE_MAX C18_MAXPAY
-int c_model_event_print(struct model *model, struct emu_ev *ev, char *buf, int buflen)
-PRINT_PRE
-__CPROVER_ensures(IMPLIES(g_psize <= 8, RET == -1 && g_rd.n == 0))                                       /* no room for the string */
-__CPROVER_ensures(IMPLIES(g_psize > 8 && !c18_has_nul(g_payload, 8, g_psize), RET == -1 && g_rd.n == 0)) /* unterminated string */
-__CPROVER_ensures(IMPLIES(RET == 0, g_psize > 8 && c18_has_nul(g_payload, 8, g_psize)))
-/* accepted: typeid fetched at (4,4), then the string from 8 up to and including its first NUL */
-__CPROVER_ensures(IMPLIES(RET == 0, g_rd.n == 2 && g_rd.off[0] == 4 && g_rd.size[0] == 4 && g_rd.off[1] == 8 &&
-	g_rd.size[1] == c18_first_nul(g_payload, 8, g_psize) - 8 + 1))
-__CPROVER_ensures(g_rd.n <= 2 && IMPLIES(g_rd.n >= 1, g_rd.off[0] == 4 && g_rd.size[0] == 4) && IMPLIES(g_rd.n == 2, g_rd.off[1] == 8))
-;
-#else
-#error "define C18_SHAPE_OAR or C18_SHAPE_VYC"
-#endif
-
-void h_model_event_print(void)
+/* every declared string starts inside the payload and is terminated inside it */
+static int c18_strings_ok(const struct ev_spec *es, const uint8_t *p, unsigned long size)
 {
-#ifdef C18_REAL_EVLIST
-	struct ev_decl *decl = NULL;
-	for (int i = 0; i < 128 && model_evlist[i].signature != NULL; i++) {
-		const char *sg = model_evlist[i].signature;
-		if (sg[0] == C18_MCV[0] && sg[1] == C18_MCV[1] && sg[2] == C18_MCV[2])
-			decl = &model_evlist[i];
-	}
-	__CPROVER_assert(decl != NULL, "the event is listed in the real model_evlist");
-#else
-	struct ev_decl decl0 = { C18_DECL_SIG, C18_DECL_DESC }, *decl = &decl0;
-#endif
-	int rc = ev_spec_compile(&g_es, decl);            /* the real compiler on the declaration */
-	__CPROVER_assert(rc == 0, "the declaration compiles");
-	g_find = &g_es;
-	g_find_null = nondet_bool();
-	struct model *model; struct emu_ev *ev; char *buf; int buflen;
-	WITNESS_ON(model_event_print);
-	int r = model_event_print(model, ev, buf, buflen);
-	if (r == 0) REACH("event decoded");
-#if defined(C18_SHAPE_OAR)
-	if (r == 0 && w_psize == 8) REACH("payload of exactly the declared size decoded");
-	if (r == 0 && w_psize == 16) REACH("longer payload decoded");
-	if (r != 0 && w_psize == 7 && !w_find_null) REACH("short payload refused");
-	if (r != 0 && w_psize == 0 && !w_find_null) REACH("missing payload refused");
-#else
-	if (r == 0 && w_psize == 9) REACH("empty label decoded");
-	if (r == 0 && w_psize == C18_MAXPAY) REACH("longest label decoded");
-	if (r != 0 && w_psize == 12 && !w_find_null && w_buflen == 4096) REACH("unterminated label refused");
-	if (r != 0 && w_psize == 8 && !w_find_null) REACH("payload without string refused");
-#endif
-	if (r != 0 && w_find_null) REACH("unlisted code refused");
-	if (r != 0 && !w_find_null && w_psize == 16 && w_buflen == 8) REACH("output buffer too small refused");
+	for (int k = 0; k < C18_MAXARGS; k++)
+		if (k < es->nargs && es->args[k].type == STR && (es->args[k].offset >= size || !c18_has_nul(p, es->args[k].offset, size)))
+			return 0;
+	return 1;
+}
+
+/* the payload bytes are always read through the event (a ghost pointer only ASSUMED equal to it does not
+ * dereference to the same object: HOWTO pitfall 1); g_payload serves for same-object / offset arithmetic only */
+#define EVP(ev) ((const uint8_t *) (ev)->payload)
+#define EV_PRE(ev) (__CPROVER_is_fresh(ev, sizeof(*ev)) && ev->payload_size == g_psize && g_psize <= C18_MAXPAY && \
+	((g_psize == 0 && ev->payload == NULL) || (g_psize > 0 && __CPROVER_is_fresh(ev->payload, g_psize))) && \
+	g_payload == (const uint8_t *) ev->payload && g_rd.n == 0)
+
+/* ====================================================================================
+ * check_payload
+ * ==================================================================================== */
+unsigned long w_psize, w_declared; int w_nargs, w_type0, w_type1; unsigned long w_off1;
+int c_check_payload(struct ev_spec *es, struct emu_ev *ev)
+__CPROVER_requires(__CPROVER_is_fresh(es, sizeof(*es)) && es->nargs >= 0 && es->nargs <= C18_MAXARGS && DIAG_PRE)
+__CPROVER_requires(EV_PRE(ev))
+__CPROVER_requires(w_psize == g_psize && w_declared == es->payload_size && w_nargs == es->nargs && w_type0 == (int) es->args[0].type &&
+	w_type1 == (int) es->args[1].type && w_off1 == es->args[1].offset)
+__CPROVER_assigns(DIAG_FRAME, g_rd)
+__CPROVER_ensures(RET == 0 || RET == -1)
+__CPROVER_ensures((RET == 0) == ((g_psize >= es->payload_size && c18_strings_ok(es, EVP(ev), g_psize)) ? 1 : 0))
+__CPROVER_ensures(IMPLIES(RET != 0, g_err > __CPROVER_old(g_err)))
+;
+void h_check_payload(void)
+{
+	struct ev_spec *es; struct emu_ev *ev;
+	int r = check_payload(es, ev);
+	/* the shape of OAr(i32 cpu, i32 tid): 8 declared bytes */
+	if (r == 0 && w_declared == 8 && w_psize == 8 && w_nargs == 2 && w_type0 == I32 && w_type1 == I32) REACH("OAr: payload of exactly the declared size accepted");
+	if (r != 0 && w_declared == 8 && w_psize == 7 && w_nargs == 2 && w_type0 == I32 && w_type1 == I32) REACH("OAr: payload one byte short refused");
+	if (r != 0 && w_declared == 8 && w_psize == 0) REACH("missing payload refused");
+	/* the shape of VYc+(u32 typeid, str label): 8 declared bytes, string at 8 */
+	if (r == 0 && w_declared == 8 && w_psize == 9 && w_nargs == 2 && w_type0 == U32 && w_type1 == STR && w_off1 == 8) REACH("VYc: empty label accepted");
+	if (r == 0 && w_declared == 8 && w_psize == C18_MAXPAY && w_nargs == 2 && w_type1 == STR && w_off1 == 8) REACH("VYc: longest label accepted");
+	if (r != 0 && w_declared == 8 && w_psize == 12 && w_nargs == 2 && w_type1 == STR && w_off1 == 8) REACH("VYc: unterminated label refused");
+	if (r != 0 && w_declared == 8 && w_psize == 8 && w_nargs == 2 && w_type1 == STR && w_off1 == 8) REACH("VYc: no room for the label refused");
+}
+
+/* ====================================================================================
+ * print_arg
+ * ==================================================================================== */
+int w_type; unsigned long w_off; int g_len0;
+int c_print_arg(struct ev_arg *arg, const char *fmt, struct cursor *c, struct emu_ev *ev)
+__CPROVER_requires(__CPROVER_is_fresh(arg, sizeof(*arg)) && __CPROVER_is_fresh(fmt, 8) && __CPROVER_is_fresh(c, sizeof(*c)) && DIAG_PRE)
+__CPROVER_requires(EV_PRE(ev))
+/* what the compiler guarantees for the argument (parse_arg contract) ... */
+__CPROVER_requires((unsigned) arg->type < MAX_TYPE && arg->size == SIZE_OF_TYPE(arg->type))
+/* ... and what check_payload has established: numeric argument inside the payload, string started and terminated inside */
+__CPROVER_requires(arg->offset <= C18_MAXPAY && arg->offset + arg->size <= g_psize)
+__CPROVER_requires(arg->type != STR || (arg->offset < g_psize && c18_has_nul(EVP(ev), arg->offset, g_psize)))
+__CPROVER_requires(c->len >= 0 && c->len <= 4096 && __CPROVER_is_fresh(c->out, (size_t) c->len + 1) && g_len0 == c->len)
+__CPROVER_requires(w_type == (int) arg->type && w_off == arg->offset && w_psize == g_psize)
+__CPROVER_assigns(c->out, c->len, __CPROVER_object_whole(c->out), DIAG_FRAME, g_rd)
+__CPROVER_ensures(RET == 0 || RET == -1)
+/* exactly one fetch from the payload: the declared bytes of the argument */
+__CPROVER_ensures(g_rd.n == 1 && g_rd.off[0] == arg->offset)
+__CPROVER_ensures(IMPLIES(arg->type != STR, g_rd.size[0] == arg->size && g_rd.size[0] == SIZE_OF_TYPE(arg->type)))
+__CPROVER_ensures(IMPLIES(arg->type == STR, g_rd.size[0] == c18_first_nul(EVP(ev), arg->offset, g_psize) - arg->offset + 1))
+__CPROVER_ensures(IMPLIES(RET == 0, c->len >= 0 && c->len <= g_len0))
+__CPROVER_ensures(IMPLIES(RET != 0, g_err > __CPROVER_old(g_err)))
+;
+void h_print_arg(void)
+{
+	struct ev_arg *arg; const char *fmt; struct cursor *c; struct emu_ev *ev;
+	int r = print_arg(arg, fmt, c, ev);
+	if (r == 0 && w_type == I32 && w_off == 4 && w_psize == 8) REACH("OAr: tid (i32 at 4) of an 8-byte payload printed");
+	if (r == 0 && w_type == I64 && w_off == 0 && w_psize == 12) REACH("OM[: value (i64 at 0) printed");
+	if (r == 0 && w_type == U8) REACH("u8 printed");
+	if (r == 0 && w_type == STR && w_off == 8 && w_psize == C18_MAXPAY) REACH("VYc: label (str at 8) printed");
+	if (r != 0) REACH("no room in the output refused");
 }
